@@ -221,6 +221,8 @@ def run(tier: str) -> Run:
                 for key, v in flat(o.value):
                     if v.dtype != expect:
                         verdicts.append({'key': key, 'dtype': v.dtype, 'expected': expect})
+                for e in events(o, 'int-unit-conversion'):
+                    verdicts.append({'integer_unit_conversion': e.detail, 'where': e.where})
                 for e in events(o, 'narrowing-cast'):
                     # float -> int always loses the fraction; float64 -> float32 is by
                     # design only where a single-precision operand is present
@@ -230,7 +232,7 @@ def run(tier: str) -> Run:
             if na and not verdicts:
                 r4.ok(inst, {'verdict': 'n/a: scipp has no arithmetic for this combination'}, nontrivial=False)
                 continue
-            fkey = f'{mod}:{name}:' + (verdicts[0].get('raises') or ('cast' if 'narrowing_cast' in verdicts[0] else 'dtype')) if verdicts else inst
+            fkey = f'{mod}:{name}:' + (verdicts[0].get('raises') or ('cast' if 'narrowing_cast' in verdicts[0] else 'int-unit' if 'integer_unit_conversion' in verdicts[0] else 'dtype')) if verdicts else inst
             # one finding per kernel and failure kind, not per grid point
             r4.check(not verdicts, inst, loc(fi), {'problems': verdicts[:2], 'expected': expect}, key=fkey)
     run.extra['dtype_grid_points'] = n_grid
